@@ -24,3 +24,76 @@ Proof.
   apply orb_true_iff in H as [H|H]; [rewrite H; reflexivity|]. rewrite (IH ts) by (try lia; exact H). apply orb_true_r.
 Qed.
 
+
+(* ---- set_stride_patterns of gemmx: where every operand pattern ends up -------------------------- *)
+Definition slot_ok (ps : list spattern) (slot : spattern * src) : Prop :=
+  match snd slot with
+  | SZero => True                                        (* reads zeros *)
+  | SOp k => disabledb (fst slot) = true \/
+             exists p, nth_error ps k = Some p /\ sp_ub (fst slot) = sp_ub p /\ sp_ts (fst slot) = sp_ts p /\
+                       (sp_ss (fst slot) = sp_ss p \/ sp_ss (fst slot) = [8; 64])
+  end.
+
+Lemma slot_same ps k p : nth_error ps k = Some p -> slot_ok ps (p, SOp k).
+Proof. intros H. right. exists p. cbn [fst]. repeat split; try assumption; try reflexivity. left. reflexivity. Qed.
+
+Lemma slot_disabled ps p k : disabledb p = true -> slot_ok ps (p, SOp k).
+Proof. intros H. left. exact H. Qed.
+
+Lemma slot_zero ps p : slot_ok ps (p, SZero).
+Proof. exact I. Qed.
+
+Lemma slot_respat ps k p : nth_error ps k = Some p -> slot_ok ps (mkSP (sp_ub p) (sp_ts p) [8; 64], SOp k).
+Proof. intros H. right. exists p. cbn [fst sp_ub sp_ts sp_ss]. repeat split; try assumption. right. reflexivity. Qed.
+
+Lemma empty1_disabled : disabledb empty1 = true.  Proof. reflexivity. Qed.
+Lemma empty2_disabled : disabledb empty2 = true.  Proof. reflexivity. Qed.
+Lemma empty1_respat_disabled : disabledb (mkSP (sp_ub empty1) (sp_ts empty1) [8; 64]) = true.  Proof. reflexivity. Qed.
+
+Ltac slots :=
+  repeat (apply Forall_cons;
+          [first [ apply slot_zero | apply slot_same; reflexivity | apply slot_disabled; reflexivity
+                 | apply slot_respat; reflexivity ]|]);
+  apply Forall_nil.
+
+Theorem gemmx_customise_sound :
+  forall k ser sd2 ps out, gemmx_customise k ser sd2 ps = Some out ->
+  List.length out = 5%nat /\ Forall (slot_ok ps) out /\
+  (* every operand of the op is streamed by a slot with its temporal bounds and strides *)
+  forall i p, nth_error ps i = Some p ->
+    exists q, In (q, SOp i) out /\ sp_ub q = sp_ub p /\ sp_ts q = sp_ts p.
+Proof.
+  intros k ser sd2 ps out H. unfold gemmx_customise in H.
+  destruct k.
+  - (* matmul, i32 output *)
+    destruct ps as [|a [|b [|d [|? ?]]]]; try discriminate H. injection H as <-.
+    split; [reflexivity|]. split.
+    + slots.
+    + intros i p Hi. destruct i as [|[|[|i]]]; cbn [nth_error] in Hi; try (destruct i; discriminate Hi);
+        injection Hi as <-; eexists; (split; [|split; reflexivity]); cbn [In]; tauto.
+  - (* matmul, i8 output *)
+    destruct ps as [|a [|b [|d [|? ?]]]]; try discriminate H. injection H as <-.
+    split; [reflexivity|]. split.
+    + slots.
+    + intros i p Hi. destruct i as [|[|[|i]]]; cbn [nth_error] in Hi; try (destruct i; discriminate Hi);
+        injection Hi as <-; eexists; (split; [|split; reflexivity]); cbn [In]; tauto.
+  - (* gemm, i32 output *)
+    destruct ps as [|a [|b [|c [|d [|? ?]]]]]; try discriminate H. injection H as <-.
+    split; [reflexivity|]. split.
+    + slots.
+    + intros i p Hi. destruct i as [|[|[|[|i]]]]; cbn [nth_error] in Hi; try (destruct i; discriminate Hi);
+        injection Hi as <-; eexists; (split; [|split; reflexivity]); cbn [In]; tauto.
+  - (* gemm, i8 output *)
+    destruct ps as [|a [|b [|c [|d [|? ?]]]]]; try discriminate H. injection H as <-.
+    split; [reflexivity|]. split.
+    + slots.
+    + intros i p Hi. destruct i as [|[|[|[|i]]]]; cbn [nth_error] in Hi; try (destruct i; discriminate Hi);
+        injection Hi as <-; eexists; (split; [|split; reflexivity]); cbn [In]; tauto.
+  - (* rescale only *)
+    destruct ps as [|c [|d [|? ?]]]; try discriminate H. injection H as <-.
+    split; [reflexivity|]. split.
+    + slots.
+    + intros i p Hi. destruct i as [|[|i]]; cbn [nth_error] in Hi; try (destruct i; discriminate Hi); injection Hi as <-.
+      * exists (mkSP (sp_ub c) (sp_ts c) [8; 64]). split; [cbn [In]; tauto|split; reflexivity].
+      * exists d. split; [cbn [In]; tauto|split; reflexivity].
+Qed.
